@@ -54,12 +54,15 @@ def run(ctx):
 
 
 def _mc(ctx):
-    n = 4 if ctx.quick else 6
-    r = ctx.tlc_mc("TrafficCtl", "SPECIFICATION Spec\n" + consts(maxops=n) + "VIEW view\n" + INVS + PROPS, coverage=True,
-                   label="contract, %d mutating calls" % n, timeout=1500)
+    r = ctx.tlc_mc("TrafficCtl", "SPECIFICATION Spec\n" + consts(maxops=4) + "VIEW view\n" + INVS + PROPS, coverage=True,
+                   label="contract, 4 mutating calls", timeout=1500)
     if r.coverage_zero:
         ctx.inconclusive("TrafficCtl: actions never taken: %s" % r.coverage_zero)
     ctx.log("contract model checked: %d distinct states (%d generated)" % (r.distinct, r.generated))
+    if not ctx.quick:
+        r = ctx.tlc_mc("TrafficCtl", "SPECIFICATION Spec\n" + consts(maxops=5) + "VIEW view\n" + INVS + PROPS,
+                       label="contract, 5 mutating calls", timeout=2400)
+        ctx.log("contract model checked, 5 mutating calls: %d distinct states (%d generated)" % (r.distinct, r.generated))
     # antecedents reachable: an inherited generation, a stale mapper, a second incarnation, all in one state
     w = ctx.tlc_mc("TrafficCtl", "SPECIFICATION Spec\n" + consts(names="\"a\"", maxops=5) + "VIEW view\nINVARIANTS NoWitness\n",
                    expect_ok=False, count=False, label="witness")
